@@ -65,7 +65,7 @@ fn scan_graph<D: ByteDev>(out: &mut Out) {
 fn frame_graph(out: &mut Out) {
     chunk("ps2-graph");
     let sys = FrameSys::new();
-    let g = bfs(&sys, true, 600_000);
+    let g = bfs(&sys, true, 1_200_000);
     let mut panics = 0;
     for s in 0..g.expanded {
         for (ai, o) in g.outs[s].iter().enumerate() {
@@ -129,6 +129,35 @@ fn stream_hunts(out: &mut Out) {
     }
     hunt::<ScancodeSet2>(out);
     hunt::<ScancodeSet1>(out);
+    // pumped streams: every word of <= 2 bytes / every frame repeated 300 times (reaches counters, logs, caches)
+    fn pumped<D: ByteDev>(out: &mut Out) {
+        chunk(&format!("scancode-pumped-streams {}", D::component()));
+        let (n, bads) = crate::props::scan::pump::<D>(2, 300, 2);
+        for b in &bads {
+            viol(out, &b.key, &b.text, &D::component(), crate::props::scan::pump_ops(b), &b.observed);
+        }
+        out.evaluations += n;
+        out.nontrivial += n;
+        out.parts.push((format!("pump:{} words<=2 x300", D::component()), json!({"stream_positions": n, "panicking_streams_recorded": bads.len()})));
+    }
+    pumped::<ScancodeSet2>(out);
+    pumped::<ScancodeSet1>(out);
+    pumped::<Keyboard<Echo, ScancodeSet2>>(out);
+    pumped::<Keyboard<Echo, ScancodeSet1>>(out);
+    chunk("ps2-pumped-frames");
+    for with_clear in [false, true] {
+        let (n, bads) = crate::props::frame::pump_frames(300, with_clear);
+        let mut panics = 0;
+        for (w, rep, bit, _want, got) in bads {
+            if got == "PANIC" {
+                panics += 1;
+                viol(out, &format!("ps2/panic/pumped{}/frame:0x{:03X}", if with_clear { "-with-clear" } else { "" }, w), &format!("Ps2Decoder: frame 0x{:03X} shifted in repeatedly panics in repetition {} at bit {}", w, rep + 1, bit + 1), "ps2", crate::props::frame::pump_frame_ops(w, rep, bit, with_clear), "PANIC");
+            }
+        }
+        out.evaluations += n;
+        out.nontrivial += n;
+        out.parts.push((format!("pump:frames x300{}", if with_clear { " with clear" } else { "" }), json!({"bit_positions": n, "panics": panics})));
+    }
 }
 
 fn act_op(a: &BitAct) -> Op {
